@@ -1,1 +1,15 @@
+-- Root of the library: specification, model, and every finished theorem file.
 import MinLex.Spec.Rne
+import MinLex.Model.Env
+import MinLex.Model.StackVecLow
+import MinLex.Proofs.WellFormed
+import MinLex.Props.RneSpec
+import MinLex.Props.ParseNumber
+import MinLex.Props.LemireArith
+import MinLex.Props.Main
+import MinLex.Props.C12
+import MinLex.Props.C13
+import MinLex.Props.C14
+import MinLex.Props.C17
+import MinLex.Props.C18
+import MinLex.Props.C19
